@@ -276,11 +276,18 @@ def _build_tree(
         if DefaultIgnoreFile in files:
             raise IgnoreInCollectedDirError(DefaultIgnoreFile, root)
 
-        # NOTE: we know for sure that root starts with path, so we can use
-        # faster string manipulation instead of a more robust relparts()
+        # NOTE: root normally starts with path, so we can use faster string
+        # manipulation instead of a more robust relparts(); walk() hands back
+        # normalised roots though, so a path spelled like `./dir` or `a//dir`
+        # needs the robust way
         rel_key: tuple[str, ...] = ()
         if root != path:
-            rel_key = tuple(root[len(path) + 1 :].split(fs.sep))
+            if root.startswith(path + fs.sep):
+                rel_key = tuple(root[len(path) + 1 :].split(fs.sep))
+            else:
+                rel_key = tuple(
+                    part for part in fs.relparts(root, path) if part != os.curdir
+                )
 
         callback.set_size((callback.size or 0) + len(files))
         objects = _build_files(
